@@ -66,11 +66,12 @@ Proof. exact st_fetch_roundtrip. Qed.
 Print Assumptions C03_fetch_roundtrip.
 
 (* octets announced for the part numbered p (RFC 3501 numbering of the
-   announced structure) = len(BODY[p.MIME]) + len(BODY[p]), to any depth,
-   when no part is message/rfc822 (see C03_part_numbering_refuted) *)
+   printed structure) = len(BODY[p.MIME]) + len(BODY[p]), to any depth, when
+   no part is message/rfc822 (see C03_part_numbering_refuted) and every
+   multipart has a parsed sub-part (see C03_empty_multipart_refuted) *)
 Theorem C03_part_octets_partial : forall d ct c b p n,
-  parse d ct = Ok c -> no_rfc822 c -> body_structure d c = Some b ->
-  In (p, n) (rfc_parts b) ->
+  parse d ct = Ok c -> no_rfc822 c -> no_empty_multi c -> body_structure d c = Some b ->
+  In (p, n) (rfc_parts (bs_printed b)) ->
   n = length (fetch_mime d c p) + length (fetch_body d c p).
 Proof. exact st_part_octets. Qed.
 Print Assumptions C03_part_octets_partial.
@@ -78,8 +79,8 @@ Print Assumptions C03_part_octets_partial.
 (* hence the clause of the statement for parts without a MIME header; the
    clause is false for the others (C03_part_octets_refuted, finding C03-F2) *)
 Theorem C03_part_octets : forall d ct c b p n,
-  parse d ct = Ok c -> no_rfc822 c -> body_structure d c = Some b ->
-  In (p, n) (rfc_parts b) -> fetch_mime d c p = [] ->
+  parse d ct = Ok c -> no_rfc822 c -> no_empty_multi c -> body_structure d c = Some b ->
+  In (p, n) (rfc_parts (bs_printed b)) -> fetch_mime d c p = [] ->
   n = length (fetch_body d c p).
 Proof. exact st_part_octets_no_header. Qed.
 Print Assumptions C03_part_octets.
@@ -96,8 +97,8 @@ Print Assumptions C03_part_octets_walk.
 (* finding C03-F2: the announced octets include the part's own header *)
 Theorem C03_part_octets_refuted :
   exists d ct c b p n,
-    parse d ct = Ok c /\ no_rfc822 c /\ body_structure d c = Some b
-    /\ In (p, n) (rfc_parts b) /\ n <> length (fetch_body d c p).
+    parse d ct = Ok c /\ no_rfc822 c /\ no_empty_multi c /\ body_structure d c = Some b
+    /\ In (p, n) (rfc_parts (bs_printed b)) /\ n <> length (fetch_body d c p).
 Proof. exact st_part_octets_refuted. Qed.
 Print Assumptions C03_part_octets_refuted.
 
@@ -105,10 +106,21 @@ Print Assumptions C03_part_octets_refuted.
    _get_subpart are not those of RFC 3501 *)
 Theorem C03_part_numbering_refuted :
   exists d ct c b p n,
-    parse d ct = Ok c /\ body_structure d c = Some b /\ In (p, n) (rfc_parts b)
+    parse d ct = Ok c /\ no_empty_multi c /\ body_structure d c = Some b
+    /\ In (p, n) (rfc_parts (bs_printed b))
     /\ n <> length (fetch_mime d c p) + length (fetch_body d c p).
 Proof. exact st_part_numbering_refuted. Qed.
 Print Assumptions C03_part_numbering_refuted.
+
+(* finding C03-F5: a multipart without parsed sub-part is printed with an
+   empty part 1 while BODY[1] returns the body of the multipart itself *)
+Theorem C03_empty_multipart_refuted :
+  exists d ct c b p n,
+    parse d ct = Ok c /\ no_rfc822 c /\ body_structure d c = Some b
+    /\ In (p, n) (rfc_parts (bs_printed b))
+    /\ n <> length (fetch_mime d c p) + length (fetch_body d c p).
+Proof. exact st_empty_multipart_refuted. Qed.
+Print Assumptions C03_empty_multipart_refuted.
 
 (* dict COPY / MOVE: the copy holds the same content object *)
 Theorem C03_copy_shares : forall m u,
@@ -134,7 +146,7 @@ Print Assumptions C03_maildir_refuted.
 
 (* the hypotheses of C03_part_octets hold of a real multipart message *)
 Theorem C03_part_octets_example :
-  exists c, parse ex_multi ex_multi_ct = Ok c /\ no_rfc822 c
+  exists c, parse ex_multi ex_multi_ct = Ok c /\ no_rfc822 c /\ no_empty_multi c
             /\ body_structure ex_multi c = Some (BsMulti [BsText 8 2%Z; BsText 2 0%Z])
             /\ rfc_parts (BsMulti [BsText 8 2%Z; BsText 2 0%Z]) = [([1], 8); ([2], 2)]
             /\ fetch_body ex_multi c [1] = [104; 105; 10]%N
